@@ -246,11 +246,35 @@ impl AstNode for StakeDelegationCertificate {
 
     fn parse(pair: Pair<Rule>) -> Result<Self, Error> {
         let span = pair.as_span().into();
-        let mut inner = pair.into_inner();
+
+        let mut pool = None;
+        let mut stake = None;
+
+        for field in pair.clone().into_inner() {
+            let field = crate::ast::RecordConstructorField::parse(field)?;
+
+            match field.name.value.as_str() {
+                "pool" => pool = Some(*field.value),
+                "stake" => stake = Some(*field.value),
+                other => {
+                    return Err(crate::parsing::error_at(
+                        &pair,
+                        format!("unexpected field '{other}' in stake_delegation_certificate"),
+                    ))
+                }
+            }
+        }
+
+        let missing = |name: &str| {
+            crate::parsing::error_at(
+                &pair,
+                format!("missing field '{name}' in stake_delegation_certificate"),
+            )
+        };
 
         Ok(StakeDelegationCertificate {
-            pool: DataExpr::parse(inner.next().unwrap())?,
-            stake: DataExpr::parse(inner.next().unwrap())?,
+            pool: pool.ok_or_else(|| missing("pool"))?,
+            stake: stake.ok_or_else(|| missing("stake"))?,
             span,
         })
     }
@@ -280,7 +304,9 @@ impl IntoLower for StakeDelegationCertificate {
         &self,
         _ctx: &crate::lowering::Context,
     ) -> Result<Self::Output, crate::lowering::Error> {
-        todo!("StakeDelegationCertificate lowering not implemented")
+        Err(crate::lowering::Error::InvalidAst(
+            "stake_delegation_certificate is not supported yet".to_string(),
+        ))
     }
 }
 
@@ -771,9 +797,16 @@ impl AstNode for CardanoBlock {
             Rule::cardano_vote_delegation_certificate => Ok(
                 CardanoBlock::VoteDelegationCertificate(VoteDelegationCertificate::parse(item)?),
             ),
-            Rule::cardano_stake_delegation_certificate => Ok(
-                CardanoBlock::StakeDelegationCertificate(StakeDelegationCertificate::parse(item)?),
-            ),
+            // lowering of this certificate is not implemented: refuse it up front, with a
+            // diagnostic, instead of accepting a program that can not be lowered
+            Rule::cardano_stake_delegation_certificate => {
+                StakeDelegationCertificate::parse(item.clone())?;
+
+                Err(crate::parsing::error_at(
+                    &item,
+                    "stake_delegation_certificate is not supported yet",
+                ))
+            }
             Rule::cardano_withdrawal_block => {
                 Ok(CardanoBlock::Withdrawal(WithdrawalBlock::parse(item)?))
             }
